@@ -76,16 +76,17 @@ def setup(config):
 
     if config["eop"] == "real":
         bc.update({"eop": {"folder": POLE, "type": "all", "missing_policy": config["policy"]}})
-        from beyond.dates.eop import EopDb
-
-        db = EopDb.db()  # must load: otherwise 'pass' would silently zero everything
         _G["real"] = ts.Model(_tables())
-        if (min(db._finals), max(db._finals)) != (_G["real"].tb.first, _G["real"].tb.last):
-            # not a violation of C03 by itself, but the domain statement of the evidence would be wrong
-            raise RuntimeError(
-                "library table spans %s, reference reader %s"
-                % ((min(db._finals), max(db._finals)), (_G["real"].tb.first, _G["real"].tb.last))
-            )
+        try:
+            from beyond.dates.eop import EopDb
+
+            EopDb.db()  # must load: otherwise 'pass' would silently zero everything
+        except Exception as e:  # a library failure: reported as a violation by the first unit, never a pool crash
+            import traceback
+
+            _G["setup_error"] = repr(e) + "\n" + traceback.format_exc()[-1500:]
+        # (that the library's table spans the same days as the reference reader's is established day by day by
+        # the 'eopdb' part through the public EopDb.get, inside and outside the table)
     else:
         bc.update({"eop": {"folder": "/nonexistent/verif-no-eop-here", "missing_policy": config["policy"]}})
     _G["zero"] = ts.Model(None)
@@ -140,6 +141,20 @@ def dt_of(clock):
     day, y, m, d, H, Mi, S, us, rest = ts.split_clock(clock)
     assert rest == 0
     return datetime(y, m, d, H, Mi, S, us)
+
+
+def check_view(x, t, case, what):
+    """the public (d, s) reading of a date: integer day, 0 <= s < 86400, same reading as the datetime view"""
+    d, sec = x.d, x.s
+    t.ev()
+    if not (isinstance(d, int) or float(d).is_integer()) or not (0.0 <= sec < 86400.0):
+        t.fail("Date.d-s/not-normalised", "the (d, s) reading of a date is a whole day number and 0 <= s < 86400", case,
+               "integer d, 0 <= s < 86400", [d, repr(sec)], f"{what}: {x.datetime.isoformat()} {x.scale.name} shows d={d!r}, s={sec!r}")
+        return
+    got = clock_ticks(x)
+    view = (d - got // DAY) * 86400.0 + (sec - (got % DAY) / TICKS)
+    if not (abs(view) <= 1e-6 + 1e-9):
+        t.fail("Date.d-s/disagrees-with-datetime", "the (d, s) view and the datetime view show the same reading", case, 0.0, view, what)
 
 
 def cls_of(*scales):
@@ -267,6 +282,9 @@ def check_scales(case, t):
         t.fail("Date.__init__/raises", "a Date can be built for every covered instant", case, "Date", repr(e))
         return
     t.trans(3 if a6 is not None else 2)
+    check_view(a, t, case, f"Date(datetime, scale={X})")
+    check_view(a2, t, case, f"Date(mjd, seconds, scale={X})")
+    check_view(a4, t, case, f"Date(Date) in {X}")
     forms = [(a2, "(mjd, seconds)", 1e-9), (a3, "(y, m, d, H, M, S, us)", 1e-9), (a4, "(Date)", 1e-9)]
     if a6 is not None:
         forms.append((a6, "(int mjd)", 1e-9))
@@ -331,10 +349,8 @@ def check_scales(case, t):
                 t.fail(classify([(X, Y)], err / TICKS, f"Date.change_scale/{cl}/reading-vs-model", shown=Y, model=True),
                        "UT1-UTC as tabulated for that day / TDB-TT its periodic term", case, exp, got,
                        f"{X}->{Y} of {dt0.isoformat()}: reading {b.datetime.isoformat()} is {err / US} us from the model's")
-        # (2b) the (d, s) view agrees with the datetime view to the resolution of the latter
-        view = (b.d - got // DAY) * 86400.0 + (b.s - (got % DAY) / TICKS)
-        if not (abs(view) <= 1e-6 + FLOAT):
-            t.fail("Date.d-s/disagrees-with-datetime", "the (d, s) view and the datetime view show the same reading", case, 0.0, view, f"{X}->{Y}")
+        # (2b) the (d, s) view: normalised, and the same reading as the datetime view to the resolution of the latter
+        check_view(b, t, case, f"{X}->{Y}")
 
     # ---- two hops: round trips and path independence ---------------------------------------------------
     clock_a = clock0  # the reading the date was built from
@@ -351,6 +367,7 @@ def check_scales(case, t):
                 continue
             t.trans()
             t.ev()
+            check_view(c2, t, case, f"{X}->{Y}->{C}")
             cl = cls_of(X, Y, C)
             if C == X:
                 back = abs(clock_ticks(c2) - clock_a)  # ticks
@@ -610,9 +627,14 @@ def check_range(case, t):
 # ---------------------------------------------------------------------------
 # part 4: missing-EOP policies
 
-POLICY_DATES = [  # (mjd, label): 1960 and 2030 are outside every table; 1965 has a (rubber second) tai-utc row but no finals row
-    (36934 + 100, "1960"), (38761 + 40, "1965"), (55256, "2010"), (62502 + 200, "2030"),
-]
+def policy_dates():
+    """(mjd, label): outside every table (1960, 2030); a tai-utc row but no finals row (1963, 1965, 1972); 1 day, 1 year,
+    10 years before the first tabulated day; 1 day and 400 days after the last one; one covered day"""
+    tb = _tables()
+    return [
+        (36934 + 100, "1960"), (tb.first - 3650, "first-10y"), (38761 + 40, "1965"), (tb.first - 365, "first-1y"),
+        (tb.first - 1, "first-1d"), (55256, "2010"), (tb.last + 1, "last+1d"), (tb.last + 400, "last+400d"), (62502 + 200, "2030"),
+    ]
 
 
 def check_policy(case, t):
@@ -691,6 +713,15 @@ def check_eopdb(case, t):
     tu = _G[key]
     leaps = m.tb.leap_days()
     for D in range(lo, hi + 1):
+        if not m.covered(D):
+            # policy 'pass' in this configuration: a day the table does not carry gives zero corrections
+            e = EopDb.get(D + 0.5)
+            t.trans()
+            t.ev()
+            if (e.ut1_utc, e.tai_utc, e.x, e.y) != (0, 0, 0, 0):
+                t.fail("EopDb.get/uncovered-day-not-zero", "for a date the tables do not cover the policy applies (zero corrections)",
+                       dict(case, day=D), [0, 0, 0, 0], [e.ut1_utc, e.tai_utc, e.x, e.y], f"EopDb.get({D + 0.5}), table {m.tb.first}..{m.tb.last}")
+            continue
         for frac in (0.0, 0.5, 0.99999):
             e = EopDb.get(D + frac)
             t.trans()
@@ -746,10 +777,15 @@ def units(tier, seed):
     # arithmetic
     for ch in _chunks(day_set(tier, 193, 13), 48 if tier == "quick" else 160):
         u.append((CFG_MAIN, dict(part="arith", days=ch)))
-    # the database day by day
+    # days the real table does not cover (zero corrections expected under 'pass'): the whole scales product on them
     tb = _tables()
+    u.append((CFG_MAIN, dict(part="scales", days=[tb.first - 3650, tb.first - 366, tb.first - 2, tb.last + 2, tb.last + 400])))
+    # the database day by day
     for lo in range(tb.first, tb.last + 1, 1100):
         u.append((CFG_MAIN, dict(part="eopdb", days=[lo, min(lo + 1099, tb.last)])))
+    n = tb.last - tb.first + 1
+    for lo, hi in ((tb.first - 400, tb.first - 1), (tb.last + 1, tb.last + 400), (tb.first - n - 20, tb.first - n + 20), (tb.first - 5000, tb.first - 4900)):
+        u.append((CFG_MAIN, dict(part="eopdb", days=[lo, hi])))
     # DateRange
     cap = 5_000 if tier == "quick" else 60_000
     for span in R_SPAN_US:
@@ -762,13 +798,23 @@ def units(tier, seed):
             cfg = {"eop": eop, "policy": pol}
             u.append((cfg, dict(part="policy")))
             if pol == "pass" and eop == "none":
-                u.append((cfg, dict(part="scales", days=[d for d, _ in POLICY_DATES])))
+                u.append((cfg, dict(part="scales", days=[d for d, _ in policy_dates()])))
                 u.append((cfg, dict(part="arith", days=[55256])))
     return u
 
 
+def _setup_failed(t, case):
+    if "setup_error" in _G:
+        t.fail("EopDb.db/real-tables-do-not-load", "with the IERS files configured the database loads and serves the tabulated values",
+               case, "database", _G["setup_error"][:300], _G["setup_error"])
+        return True
+    return False
+
+
 def run_unit(p, t):
     cfg = _G["config"]
+    if _setup_failed(t, dict(kind="setup", config=cfg)):
+        return
     if p["part"] == "scales":
         for D in p["days"]:
             for sod in SODS_US:
@@ -788,7 +834,7 @@ def run_unit(p, t):
     elif p["part"] == "eopdb":
         check_eopdb(dict(kind="eopdb", config=cfg, days=p["days"]), t)
     elif p["part"] == "policy":
-        for D, _ in POLICY_DATES:
+        for D, _ in policy_dates():
             for sod in (3_600_000_000, 43_200_123_456):  # away from 0h: the day seams are the business of part 1
                 for X in SCALES:
                     for Y in SCALES:
@@ -800,4 +846,6 @@ def run_unit(p, t):
 def replay(case, t):
     if _G.get("config") != case["config"]:
         raise RuntimeError("replay in a process configured for %r" % (_G.get("config"),))
+    if _setup_failed(t, case) or case["kind"] == "setup":
+        return
     {"scales": check_scales, "arith": replay_arith, "range": check_range, "policy": check_policy, "eopdb": replay_eopdb}[case["kind"]](case, t)
